@@ -1,9 +1,9 @@
 package props
 
 import (
-	"os"
 	"fmt"
 	"math/rand"
+	"os"
 	"sort"
 	"strings"
 
